@@ -97,3 +97,22 @@ theorem C02_reject_only_documented (b : B) :
 example : (run {} [.toolOn .cw (.fin 1000), .coolOn .mist, .move false { x := some (.fin 1) } [] 0,
                    .toolOn .ccw (.fin 5), .halt .pause [], .toolOff, .coolOff, .halt .pause []]).2.map (·.codes)
     = [[.M03], [.M07], [.G1], [.M05], [.M09], [.M00]] := by decide
+
+/-- the same for `halt` / `pause` / `stop` / `wait`: accepted exactly when the mode is valid, tool and
+    coolant are off, every parameter is finite and every temperature written is inside its range -/
+theorem C02_halt_documented (b : B) (m : HaltArg) (ps : VParams) :
+    (step b (.halt m ps)).out = .ok ↔
+      (m ≠ .off ∧ m ≠ .bogus) ∧ b.toolActive = false ∧ b.coolActive = false ∧
+      ∃ ps', ps.fin? = some ps' ∧ ∀ k, m.kind = some k → (haltTemps ps').all (b.bounds.okNum k) = true := by
+  simp only [step, stepHalt, reject, accept]
+  constructor
+  · intro h
+    (repeat' split at h) <;> simp_all
+  · rintro ⟨⟨h1, h2⟩, ht, hc, ps', hps, hk⟩
+    simp only [h1, h2, or_self, if_false, ht, hc, Bool.false_eq_true, hps]
+    cases hkind : m.kind with
+    | none => simp
+    | some k =>
+      have := hk k hkind
+      simp only [this, Bool.not_true, Bool.false_eq_true, if_false]
+      (repeat' split) <;> simp
